@@ -264,9 +264,14 @@ def writes_in(fn: ast.AST) -> list:
                     if p:
                         out.append((p, "attr-del", n))
         elif isinstance(n, ast.Call) and isinstance(n.func, ast.Attribute) and n.func.attr in MUTATORS:
-            p = dotted(n.func.value)
+            recv = n.func.value
+            nested = False
+            while isinstance(recv, ast.Subscript):  # table[key].add(x) mutates an element of `table`
+                recv = recv.value
+                nested = True
+            p = dotted(recv)
             if p:
-                out.append((p, "call-" + n.func.attr, n))
+                out.append((p, ("elem-" if nested else "") + "call-" + n.func.attr, n))
     return out
 
 
